@@ -170,6 +170,11 @@ class _ParseTreeProcessor(parsimonious.NodeVisitor):
     def visit_end_of_line(self, _n: _Node, _c: _Children) -> None:
         self._current_line_number += 1
 
+    def visit_definition(self, _n: _Node, _c: _Children) -> None:
+        # The trailing end-of-line is optional, so the last line may be a statement or a comment rather than an
+        # empty line. Flush here, otherwise the last attribute (or a trailing comment) would be silently dropped.
+        self._flush_comment()
+
     # ================================================== Statements ==================================================
 
     visit_statement = _make_typesafe_child_lifter(type(None))  # Make sure all sub-nodes have been handled,
